@@ -15,6 +15,7 @@ BKinds == {"absent", "true", "false", "yes", "off", "five", "word", "list"}
 LKinds == {"absent", "empty", "nums", "mixed", "scalar"}
 OKinds == {"absent", "min", "full", "noreq", "extra", "scalar", "badm"}
 XKinds == {"absent", "present"}      \* an undeclared top-level key
+PKinds == {"absent", "re", "badre"}  \* a pattern-typed field: a regular expression, or text that is none
 WKinds == {"map", "list", "scalar"}   \* what the whole document is
 Schemas == {"full", "empty"}          \* "empty": an input object that declares no properties - only the empty map is valid
 
@@ -24,10 +25,11 @@ BValid(k) == k \in {"absent", "true", "false", "yes", "off"}
 LValid(k) == k \in {"absent", "empty", "nums"}
 OValid(k) == k \in {"absent", "min", "full"}
 XValid(k) == k = "absent"
-AllAbsent(d) == d.s = "absent" /\ d.i = "absent" /\ d.b = "absent" /\ d.l = "absent" /\ d.o = "absent" /\ d.x = "absent"
+PValid(k) == k \in {"absent", "re"}
+AllAbsent(d) == d.s = "absent" /\ d.i = "absent" /\ d.b = "absent" /\ d.l = "absent" /\ d.o = "absent" /\ d.x = "absent" /\ d.p = "absent"
 Valid(d) == /\ d.w = "map"
             /\ IF d.schema = "empty" THEN AllAbsent(d)
-               ELSE SValid(d.s) /\ IValid(d.i) /\ BValid(d.b) /\ LValid(d.l) /\ OValid(d.o) /\ XValid(d.x)
+               ELSE SValid(d.s) /\ IValid(d.i) /\ BValid(d.b) /\ LValid(d.l) /\ OValid(d.o) /\ XValid(d.x) /\ PValid(d.p)
 
 L(p, v) == <<p, v>>
 SNorm(k) == CASE k = "str" -> {L(<<"s">>, "s:hello")} [] k = "numstr" -> {L(<<"s">>, "s:12")} [] OTHER -> {}
@@ -37,9 +39,11 @@ BNorm(k) == CASE k \in {"true", "yes"} -> {L(<<"b">>, "b:true")} [] k \in {"fals
 LNorm(k) == CASE k = "empty" -> {L(<<"l">>, "e:[]")} [] k = "nums" -> {L(<<"l", "0">>, "i:1"), L(<<"l", "1">>, "i:2")} [] OTHER -> {}
 ONorm(k) == CASE k = "min"  -> {L(<<"o", "k">>, "s:v"), L(<<"o", "m">>, "i:1")}     \* nested default
               [] k = "full" -> {L(<<"o", "k">>, "s:v"), L(<<"o", "m">>, "i:4")} [] OTHER -> {}
-Norm(d) == IF d.schema = "empty" THEN {} ELSE SNorm(d.s) \cup INorm(d.i) \cup BNorm(d.b) \cup LNorm(d.l) \cup ONorm(d.o)
+\* what steps and outputs see of a pattern is its text (the serialized form), not a compiled expression
+PNorm(k) == CASE k = "re" -> {L(<<"p">>, "s:^ab+c$")} [] OTHER -> {}
+Norm(d) == IF d.schema = "empty" THEN {} ELSE SNorm(d.s) \cup INorm(d.i) \cup BNorm(d.b) \cup LNorm(d.l) \cup ONorm(d.o) \cup PNorm(d.p)
 
-AllDocs == [s : SKinds, i : IKinds, b : BKinds, l : LKinds, o : OKinds, x : XKinds, w : WKinds, schema : Schemas]
+AllDocs == [s : SKinds, i : IKinds, b : BKinds, l : LKinds, o : OKinds, x : XKinds, p : PKinds, w : WKinds, schema : Schemas]
 ASSUME \A k \in DOMAIN Docs : Docs[k] \in AllDocs
 \* the normal form of a valid document is a function of the path (no two values for one path) and total on the
 \* fields that have a value or a default
